@@ -193,8 +193,8 @@ def check_adaptive(ctx, kind, m, marked, subs, bnds, label, order=1, disjoint=Tr
     tagkey = 'adaptive'
     if order == 1 and not r.is_valid() and not dup:
         ctx.fail(f'adaptive-invalid:{cname}', 'refined mesh fails is_valid()', data)
-    if order == 2 and m.is_valid() and not r.is_valid():      # meaningful once is_valid supports quadratic meshes (N38)
-        ctx.fail(f'adaptive-invalid:{cname}', 'valid second-order mesh refined to one that fails is_valid()', data)
+    if order == 2 and not r.is_valid():      # is_valid supports quadratic meshes since N38
+        ctx.fail(f'adaptive-invalid:{cname}', 'refined second-order mesh fails is_valid()', data)
     st = ex.Step(kind, m.p[:, :nv], m.t, r.p[:, :nvr], r.t, uniform=False, marked=sorted(set(marked.tolist())), disjoint=disjoint)
     ctx.count(('adaptive', kind, cname, m.p.tolist(), m.t.tolist(), marked.tolist(),
                sorted((k, v.tolist()) for k, v in tags_s.items())),
